@@ -3,6 +3,7 @@
 #![allow(non_snake_case)]
 mod meta;
 mod pin;
+mod refhash;
 mod suite;
 
 use scen::Params;
@@ -78,10 +79,25 @@ fn parse_args() -> Args {
 /// run a scenario concretely on a real ciphersuite
 fn real_run<C: frost_rerandomized::RandomizedCiphersuite>(prop: &str, p: &Params, seed: u64, model: &[(String, String)]) -> (u64, Vec<String>) {
     let mut lab = ConcLab::<C>::new(seed, model);
+    lab.ref_hash = match C::ID {
+        "FROST-ED25519-SHA512-v1" => Some(|w, m| refhash::ref_hash("frost-ed25519", w, m)),
+        "FROST-RISTRETTO255-SHA512-v1" => Some(|w, m| refhash::ref_hash("frost-ristretto255", w, m)),
+        "FROST-ED448-SHAKE256-v1" => Some(|w, m| refhash::ref_hash("frost-ed448", w, m)),
+        "FROST-P256-SHA256-v1" => Some(|w, m| refhash::ref_hash("frost-p256", w, m)),
+        "FROST-secp256k1-SHA256-v1" => Some(|w, m| refhash::ref_hash("frost-secp256k1", w, m)),
+        _ => None,
+    };
     let r = catch_unwind(AssertUnwindSafe(|| scen::run_prop::<C, _>(prop, &mut lab, p)));
     let mut fails = lab.failures.clone();
     if r.is_err() {
-        fails.push(format!("panic: {}", symlab::take_panic().unwrap_or_default()));
+        let m = symlab::take_panic().unwrap_or_default();
+        if m.contains("/scen/src/") || m.contains("/scen-tr/src/") || m.contains("/symlab/src/") {
+            // a panic of the harness itself is no statement about the code under test:
+            // the run is reported as unusable (inconclusive), never as a violation
+            eprintln!("harness panic in a concrete run: {m}");
+            return (0, vec![]);
+        }
+        fails.push(format!("panic: {m}"));
     }
     (lab.checks, fails)
 }
@@ -91,7 +107,14 @@ fn real_run_tr(p: &Params, seed: u64, model: &[(String, String)]) -> (u64, Vec<S
     let r = catch_unwind(AssertUnwindSafe(|| scen_tr::run(&mut lab, p)));
     let mut fails = lab.failures.clone();
     if r.is_err() {
-        fails.push(format!("panic: {}", symlab::take_panic().unwrap_or_default()));
+        let m = symlab::take_panic().unwrap_or_default();
+        if m.contains("/scen/src/") || m.contains("/scen-tr/src/") || m.contains("/symlab/src/") {
+            // a panic of the harness itself is no statement about the code under test:
+            // the run is reported as unusable (inconclusive), never as a violation
+            eprintln!("harness panic in a concrete run: {m}");
+            return (0, vec![]);
+        }
+        fails.push(format!("panic: {m}"));
     }
     (lab.checks, fails)
 }
@@ -144,12 +167,15 @@ fn main() {
         std::process::exit(0);
     }
     if prop == "pin-spec" {
-        let (n, fails) = pin::pin_all();
+        let (n, mut fails) = pin::pin_all();
         println!("pin-spec: {n} values of the RFC 9591 transcription compared with the RFC vectors of 5 suites, {} mismatches", fails.len());
+        let (n2, f2) = pin::pin_refhash();
+        println!("pin-spec: {n2} values of the independent H1/H3/H4/H5 transcription (refhash) compared with the RFC vectors of 5 suites, {} mismatches", f2.len());
+        fails.extend(f2);
         for f in &fails {
             println!("  MISMATCH {f}");
         }
-        std::process::exit(if fails.is_empty() && n > 0 { 0 } else { 2 });
+        std::process::exit(if fails.is_empty() && n > 0 && n2 > 0 { 0 } else { 2 });
     }
     if prop == "pin-tr" {
         let (n, fails) = pin::pin_tr();
